@@ -164,7 +164,7 @@ Proof.
   destruct ((negb (r_name r =? 0) && negb (r_group r =? 0)) || negb (r_bad r =? 0)); [intros H; inversion H; reflexivity|].
   destruct (is_void r && negb (r_group r =? 0)); [intros H; inversion H; reflexivity|].
   destruct (is_reserved (form_type (r_form r))); [intros H; inversion H; reflexivity|].
-  destruct (run_steps c (add_steps r (if is_void r then S v else v))); intros H; inversion H; reflexivity.
+  destruct (run_steps c (add_steps r (S v))); intros H; inversion H; reflexivity.
 Qed.
 
 Lemma NoDup_app_intro {A} (a b : list A) :
@@ -239,7 +239,7 @@ Proof.
   destruct ((negb (r_name r =? 0) && negb (r_group r =? 0)) || negb (r_bad r =? 0)); [exact Hu|].
   destruct (is_void r && negb (r_group r =? 0)); [exact Hu|].
   destruct (is_reserved (form_type (r_form r))); [exact Hu|].
-  destruct (run_steps c (add_steps r (if is_void r then S v else v))) eqn:Hs; cbn [fst]; [|exact Hu].
+  destruct (run_steps c (add_steps r (S v))) eqn:Hs; cbn [fst]; [|exact Hu].
   eapply run_steps_uniq; eauto.
 Qed.
 
@@ -325,7 +325,7 @@ Proof.
   destruct ((negb (r_name r =? 0) && negb (r_group r =? 0)) || negb (r_bad r =? 0)); [exact Hu|].
   destruct (is_void r && negb (r_group r =? 0)); [exact Hu|].
   destruct (is_reserved (form_type (r_form r))); [exact Hu|].
-  destruct (run_steps c (add_steps r (if is_void r then S v else v))) eqn:Hs; cbn [fst]; [|exact Hu].
+  destruct (run_steps c (add_steps r (S v))) eqn:Hs; cbn [fst]; [|exact Hu].
   eapply run_steps_no_reserved; eauto.
 Qed.
 
@@ -378,6 +378,7 @@ Proof.
   - break_match; reflexivity.
   - break_match; reflexivity.
   - break_match; reflexivity.
+  - reflexivity.
   - reflexivity.
   - reflexivity.
   - reflexivity.
